@@ -86,7 +86,11 @@ def snapshot(obj, _memo=None, _depth=0):
     elif isinstance(obj, (list, tuple)):
         out["seq"] = [snapshot(x, _memo, d) for x in obj]
     elif isinstance(obj, (set, frozenset)):
-        out["set"] = sorted((snapshot(x, _memo, d) for x in obj), key=_key)
+        # the numbering of shared objects ("seen" entries) must not depend on the iteration order of the set: order the
+        # elements by a key computed with a private copy of the memo, then visit them in that order
+        elems = list(obj)
+        keys = [_key(snapshot(x, dict(_memo), d)) for x in elems]
+        out["set"] = [snapshot(elems[i], _memo, d) for i in sorted(range(len(elems)), key=lambda i: keys[i])]
     elif type(obj).__module__ == "numpy":
         out["repr"] = repr(obj)
     # attributes
